@@ -13,6 +13,8 @@ def run(tier):
                        "sampler distribution (AnalyzerTable, QuickTable) and TLC evaluates them exactly; the real objects must agree (probabilities, "
                        "performance, error rate, renormalised quick distribution) and must work on every circuit the sampler accepts. non-trivial = "
                        "at least one construction call before the read; distinct = distinct call sequences", psu=ec.PSU_ALL, nsim=1600, frac=0.15)
+    cc.trace_phase(chk, PID, "wiring_float_reads", 1600 if tier == "thorough" else 240, "wiring", MINE, numeric=False, reads={"analyze", "quick"})
+    cc.trace_phase(chk, PID, "components_float_reads", 1600 if tier == "thorough" else 160, "components", MINE, numeric=False, reads={"analyze", "quick"})
     return chk.finish()
 
 
